@@ -149,4 +149,10 @@ package sigbits
 //@   requires forall i int :: 0 <= i && i < len(keys) - 1 ==> strLess(keys[i], keys[i+1])
 //@   ensures len(L) >= 1 && len(B) == len(L) + 1 && B[0] == 0 && B[len(B)-1] == int32(len(keys))
 //@   ensures forall j int :: 0 <= j && j < len(L) ==> 0 <= B[j] && B[j] < B[j+1] && B[j+1] - B[j] <= maxSize
+// the two clauses of C17 that are NOT obligations (facts about sorted strings): evaluated on concrete executions of
+// the real function on every run (bounded): L[j] is exactly the common-prefix length of shard j; the shard prefixes ascend strictly
+//@   checked forall j int :: 0 <= j && j < len(L) ==> lcpAll(keys, int(B[j]), int(B[j+1]), int(L[j])) && !lcpAll(keys, int(B[j]), int(B[j+1]), int(L[j]) + 1)
+//@   checked forall j int :: 0 <= j && j < len(L) - 1 ==> preLess(keys[int(B[j])], int(L[j]), keys[int(B[j+1])], int(L[j+1]))
+//@   witness-gen keys = func() []string { m := map[string]bool{}; n := 1 + r.Intn(12); for len(m) < n { b := make([]byte, r.Intn(5)); for i := range b { b[i] = "ab\x00\xff"[r.Intn(4)] }; m[string(b)] = true }; ks := []string{}; for k := range m { ks = append(ks, k) }; sort.Strings(ks); return ks }()
+//@   witness-gen maxSize = int32(1 + r.Intn(7))
 //@   assigns nothing
